@@ -195,3 +195,112 @@ def hit_key(h):
 def node_tags(n):
     """the tag list the seeder reads from a node: n.attrs.get("tags", [])"""
     return n.attrs.get("tags", [])
+# ---------------------------------------------------------------- C16 / C10: log normalisation, staging, writers
+
+@spec
+def ci_on():
+    return env_get("CI", "").lower() == "true"
+
+
+@spec
+def is_identity_log(name):
+    return (name == "t1.jsonl" or name == "t2.jsonl" or name == "t4.jsonl" or name == "apply.jsonl"
+            or name == "turn.jsonl")
+
+
+@spec
+def zero_ms(rec):
+    return ite("ms" in rec, map_put(rec, "ms", jv(0.0)), rec)
+
+
+@spec
+def zero_durations(o):
+    return ite("durations_ms" in o and jv_is_dict(o["durations_ms"]),
+               map_put(o, "durations_ms", jv({k: 0.0 for k in jv_dict(o["durations_ms"]).keys()})), o)
+
+
+@spec
+def norm_slice(o):
+    return ite("slice_idx" in o and jv_int_ok(o["slice_idx"]),
+               map_put(o, "slice_idx", jv(jv_int_val(o["slice_idx"]))), o)
+
+
+@spec
+def norm_yield(o):
+    return ite("yielded" in o and jv_truthy(o["yielded"]),
+               map_put(norm_slice(o), "yielded", jv(True)),
+               map_del(map_del(o, "yielded"), "slice_idx"))
+
+
+@spec
+def norm_id(name, rec):
+    """the documented CI identity normalisation N(name, rec) as a function on records"""
+    if not ci_on():
+        return rec
+    if name == "t3_reflection.jsonl":
+        return zero_ms(rec)
+    if not is_identity_log(name):
+        return rec
+    if name == "turn.jsonl":
+        return norm_yield(zero_durations(map_del(zero_ms(rec), "now")))
+    return map_del(zero_ms(rec), "now")
+
+
+@spec
+def stage_ord_of(name):
+    """documented within-turn stream order; unknown streams sort last (99)"""
+    if name == "t1.jsonl":
+        return 1
+    if name == "t2.jsonl":
+        return 2
+    if name == "t3_plan.jsonl":
+        return 3
+    if name == "t3_dialogue.jsonl":
+        return 4
+    if name == "t4.jsonl":
+        return 5
+    if name == "apply.jsonl":
+        return 6
+    if name == "health.jsonl":
+        return 7
+    if name == "turn.jsonl":
+        return 8
+    if name == "scheduler.jsonl":
+        return 9
+    if name == "t3_reflection.jsonl":
+        return 10
+    return 99
+
+
+@spec
+def stage_key(r):
+    return (r.key.turn_id, r.key.stage_ord, r.key.slice_idx, r.key.seq, r.file_path)
+
+
+@spec
+def is_gen(path, n, p):
+    """p is the name of one of the backup generations 1..n of `path` (gname/gidx: see contracts/c16_logs.py)"""
+    return 1 <= gidx(path, p) and gidx(path, p) <= n and p == gname(path, gidx(path, p))
+
+
+@spec
+def same_file(fs, fs0, p):
+    """name p denotes the same thing (absent, or the same content) in both name spaces"""
+    return (p in fs) == (p in fs0) and implies(p in fs0, fs[p] == fs0[p])
+
+
+@spec
+def moved_file(fs, dst, fs0, src):
+    """dst now holds exactly what src held (absent if src was absent)"""
+    return (dst in fs) == (src in fs0) and implies(src in fs0, fs[dst] == fs0[src])
+
+
+@spec
+def wf_stager(s):
+    return s._bytes == bsum(s._buf, len(s._buf)) and s._seq >= 0
+
+
+@spec
+def stager_bounded(s):
+    """memory bound of the staging buffer: within the byte limit, except for a single record that alone exceeds it"""
+    return s._bytes <= s.byte_limit or len(s._buf) <= 1
